@@ -1,8 +1,11 @@
 #!/bin/bash
-# Builds the verification harness from files on disk only (offline).
+# Builds the verification harness (and the repository binaries two checks drive)
+# from files on disk only (offline).
 set -e
 cd "$(dirname "$0")"
+VERIF_DIR="$(pwd)"
 export CARGO_NET_OFFLINE=true RUST_BACKTRACE=0
 mkdir -p out evidence
 (cd harness && cargo build --release --offline)
+(cd /repo && cargo build -p abasic-cli -p abasic-lsp --offline --target-dir "$VERIF_DIR/harness/target/repo")
 echo "setup ok"
